@@ -369,10 +369,12 @@ class Parser:
                 return self.__check_command_completion(testsemicolon=False)
 
         if ttype == "comma":
+            self.__check_pending_argument()
             self.__set_expected("identifier")
             return True
 
         if ttype == "right_parenthesis":
+            self.__check_pending_argument()
             self.__pop_expected_bracket(ttype, tvalue)
             self.__up()
             return True
@@ -381,6 +383,14 @@ class Parser:
             return self.__check_command_completion(testsemicolon=False)
 
         return False
+
+    def __check_pending_argument(self):
+        """A tag which waits for its argument can not end a command."""
+        curarg = self.__curcommand.curarg
+        if curarg is not None and "extra_arg" in curarg:
+            raise ParseError(
+                "argument expected after %s" % self.__curcommand.arguments[curarg["name"]]
+            )
 
     def __get_block_owner(self):
         """Return the control/action command the current tests belong to."""
@@ -435,6 +445,9 @@ class Parser:
 
         if self.__cstate(ttype, tvalue):
             return True
+
+        if ttype in ["left_cbracket", "semicolon"]:
+            self.__check_pending_argument()
 
         if ttype == "left_cbracket":
             if not self.__get_block_owner().accept_children:
